@@ -107,7 +107,7 @@ def run_process(seed, specs, tmpdir, tag):
 
 def run(ctx: Ctx) -> None:
     quick = ctx.quick
-    S = 16 if quick else 64
+    S = 24 if quick else 64
     calls = build_calls(quick)
     wit = witness_calls()
     reuse = reuse_calls(quick)
